@@ -34,6 +34,7 @@ RULE += ' Round 6: table rows for ids without spikes; probes with their own samp
 RULE += ' Round 7: stale cluster_probes.npy in input folders; an earlier single-probe merge in the output folder; per-probe template precision; inputs already spread along x.'
 RULE += ' Round 8: the same folder listed twice; a 130-probe merge; value columns spelled differently per probe; comma-separated tables.'
 RULE += ' Round 9: later probes whose lowest cluster ids have lost their spikes; every id named by a per-cluster table must map back to its probe; probe_info given (unsorted labels, keyword or positional).'
+RULE += " Round 10: non-ASCII labels in per-cluster tables; a first probe spanning more than 2**31 samples; one probe's spike times shifted (same count) between two merges of one Merger; capitalised parameter names in params.py."
 EXHAUSTIVE = {'quick': False, 'thorough': False}
 FLOORS = {'quick': {'evaluations': 950, 'distinct_nontrivial': 400},
           'thorough': {'evaluations': 15000, 'distinct_nontrivial': 6000}}
